@@ -75,7 +75,8 @@ reg("C06", "E1 relation sweep",
     "For v2/v3 every base vector x every subset of the eligible metrics is enumerated for (a) and "
     "(b); (d) full override x Hamming-1 (quick) / all 2,592 (thorough) base vectors; v4 relations "
     "run on a base skeleton (quick) or all 104,976 base vectors (thorough), all 9,600 supplemental "
-    "spellings on a macrovector-covering set, all 2,048 Modified subsets on a small set.",
+    "spellings on a macrovector-covering set, all 2,048 Modified subsets on a small set. Relation "
+    "(d) writes every second group of vectors with the Modified metrics in front of the base metrics.",
     "Trusted: the tables of eligible metrics / equivalent values typed in from the specification; "
     "CPython. v4 products larger than the stated sets are bounded (stated in evidence).",
     "DESIGN.md section 3, C06")
@@ -119,7 +120,9 @@ reg("C05", "E2 rewrite BFS",
     "Permutation distance 1 (quick) / 2 (thorough) from 160-190 seeds; all 720 orders of the v2 "
     "base fields, all 40,320 orders of the v3 base fields; all 2^k explicit-ND subsets for v2/v3, "
     "v4 all 2^k in the thorough tier. No expected values: every node must reproduce its seed's "
-    "scores, ratings, cleaned vector, RH vector, sub-vectors, equality and hash.",
+    "scores, ratings, cleaned vector, RH vector, sub-vectors, equality and hash. Every permutation "
+    "of the version's metric blocks (24 / 120 orders, plain and block-reversed) of six all-metrics "
+    "assignments per family in which Modified metrics differ from their base metrics.",
     "Trusted: the model's parse (to know which seed a node belongs to).",
     "DESIGN.md section 3, C05")
 
@@ -130,7 +133,8 @@ reg("C07", "E1 universe + all ordered pairs",
     "checks on each, == / != / hash / scores consistency on every ordered pair (5M-36M pairs, "
     "cross-version pairs included), transitivity on all triples of a 60-element sub-universe. The "
     "fixed metric order is checked as a consistent precedence relation over all outputs without "
-    "presupposing which order.",
+    "presupposing which order. The universe contains an all-metrics vector in every permutation of "
+    "the metric blocks (every third for v4).",
     "Trusted: the model's parse. Bounded by the universe.", "DESIGN.md section 3, C07")
 
 reg("C08", "E1 subset sweep + builder runs",
@@ -139,7 +143,8 @@ reg("C08", "E1 subset sweep + builder runs",
     "pinned FIRST schema",
     "v2: all 2^8 subsets x 3 value rotations x 3 input orders; v3: all 2^14 x 2 minors; v4: all "
     "2^21 subsets (thorough) / all subsets of size <=3 and their complements (quick); plus 64 "
-    "builder runs. Every emitted string is re-parsed and regex-matched.",
+    "builder runs; all-metrics inputs in every permutation of the metric blocks. Every emitted "
+    "string is re-parsed and regex-matched.",
     "Trusted: the pinned copies of FIRST's JSON schemas (data/schemas), Python's re.",
     "DESIGN.md section 3, C08")
 
@@ -188,7 +193,9 @@ reg("C16", "E3 answer-script exploration (deviation-bounded)",
     "d=1 for all-metrics and d=2 for mandatory-only (quick, 104k dialogues), d=2 everywhere and d=3 "
     "for v2 mandatory (thorough). Question order is not presupposed (reactive stdin keyed by "
     "metric).",
-    "Trusted: prompts are attributable to metrics by keywords of the specification's metric names.",
+    "Trusted: a question names its metric by the distinctive words of the specification's metric "
+    "name or by its abbreviation, somewhere in what is printed since the previous answer (wording, "
+    "layout and the text of a repeated question are free).",
     "DESIGN.md section 3, C16")
 
 reg("C17", "E3 command-line enumeration",
@@ -200,7 +207,10 @@ reg("C17", "E3 command-line enumeration",
     "at each question for every single-version flag set; 136-450 real subprocess runs for exit "
     "status and stderr.",
     "Trusted: 'exactly as the library API reports them' is checked against the same tree's API "
-    "(C01-C12 decide the API itself). Several version flags: any one is admitted.",
+    "(C01-C12 decide the API itself). Several version flags: any one is admitted. The report is "
+    "judged by content (score lines by the words base/temporal/environmental in their label, the "
+    "two vectors ending a line, the JSON document from the first line opening with '{'), not by "
+    "the wording of labels; the error message may be on either stream.",
     "DESIGN.md section 3, C17")
 
 reg("C18", "E3 operation-sequence BFS",
